@@ -113,12 +113,22 @@ func newUniverse(P *Program) *Universe {
 		U.fillFields(si)
 	}
 	U.seqs["Str"] = "Int"
+	U.seqs["Seq_Err"] = "Err"
+	U.seqs["Seq_Node"] = "Node"
+	U.seqs["Seq_Span"] = "Span"
+	U.seqs["Seq_Int"] = "Int"
+	U.seqs["Seq_Str"] = "Str"
 	return U
 }
 
 func (U *Universe) fillFields(si *StructInfo) {
 	st := si.Named.Underlying().(*types.Struct)
 	si.Fields = nil
+	if si.Name == "strings.Builder" {
+		// a builder is a heap object with one ghost field: its content
+		si.Fields = []FieldInfo{{Name: "out", Type: nil, Sort: "Out"}}
+		return
+	}
 	for i := 0; i < st.NumFields(); i++ {
 		f := st.Field(i)
 		si.Fields = append(si.Fields, FieldInfo{Name: f.Name(), Type: f.Type(), Sort: U.sortOf(f.Type())})
@@ -249,6 +259,9 @@ func (U *Universe) sortOf(t types.Type) string {
 
 // zero returns the SMT term of the zero value of a Go type.
 func (U *Universe) zero(t types.Type) string {
+	if t == nil {
+		return "OEmpty"
+	}
 	s := U.sortOf(t)
 	switch s {
 	case "Int":
@@ -339,7 +352,20 @@ func (U *Universe) lit(s string) string {
 
 // typeOK returns the shallow typing fact Go's type system guarantees for a
 // Node/Err-sorted term of static type t ("" if none).
+// typeOKEager: the part of typeOK that is cheap enough to assume at every load
+// (pointer types: two alternatives). Interface typing (a disjunction over all
+// implementing types) is assumed lazily, at type assertions / type switches.
+func (U *Universe) typeOKEager(term string, t types.Type) string {
+	if _, ok := t.Underlying().(*types.Interface); ok {
+		return ""
+	}
+	return U.typeOK(term, t)
+}
+
 func (U *Universe) typeOK(term string, t types.Type) string {
+	if t == nil {
+		return ""
+	}
 	s := U.sortOf(t)
 	if s != "Node" && s != "Err" {
 		return ""
@@ -443,7 +469,7 @@ func (U *Universe) prelude() string {
 	}
 	b.WriteString(")))\n")
 	b.WriteString("; ---- Out: content of a strings.Builder, newest fragment outermost\n")
-	b.WriteString("(declare-datatypes ((Out 0)) (((OEmpty) (OByte (OByte.prev Out) (OByte.b Int)) (OStr (OStr.prev Out) (OStr.s Str)))))\n")
+	b.WriteString("(declare-datatypes ((Out 0)) (((OEmpty) (OByte (OByte.prev Out) (OByte.b Int)) (OStr (OStr.prev Out) (OStr.s Str)) (ORune (ORune.prev Out) (ORune.r Int)))))\n")
 	b.WriteString("(declare-fun Out.str (Out) Str)\n")
 	b.WriteString("; ---- sequences\n")
 	for _, s := range seqNames {
@@ -455,34 +481,41 @@ func (U *Universe) prelude() string {
 }
 
 func seqAxioms(S, E string) string {
-	r := strings.NewReplacer("$S", S, "$E", E)
+	// Str holds bytes: what is stored is the value modulo 256 (Go's byte conversion),
+	// which keeps the range axiom for Str.nth consistent.
+	st := "x"
+	extra := ""
+	if S == "Str" {
+		st = "(mod x 256)"
+		extra = "(assert (forall ((s Str) (i Int)) (! (=> (and (<= 0 i) (< i (Str.len s))) (and (<= 0 (Str.nth s i)) (<= (Str.nth s i) 255))) :pattern ((Str.nth s i)))))\n"
+	}
+	r := strings.NewReplacer("$S", S, "$E", E, "$X", st)
 	return r.Replace(`(declare-fun $S.len ($S) Int)
 (declare-fun $S.nth ($S Int) $E)
 (declare-const $S.empty $S)
 (declare-fun $S.snoc ($S $E) $S)
 (declare-fun $S.slice ($S Int Int) $S)
 (declare-fun $S.upd ($S Int $E) $S)
+(declare-fun $S.cat ($S $S) $S)
+(assert (forall ((a $S) (b $S)) (! (= ($S.len ($S.cat a b)) (+ ($S.len a) ($S.len b))) :pattern (($S.cat a b)))))
+(assert (forall ((a $S) (b $S) (i Int)) (! (= ($S.nth ($S.cat a b) i) (ite (< i ($S.len a)) ($S.nth a i) ($S.nth b (- i ($S.len a))))) :pattern (($S.nth ($S.cat a b) i)))))
 (assert (forall ((s $S)) (! (>= ($S.len s) 0) :pattern (($S.len s)))))
 (assert (= ($S.len $S.empty) 0))
 (assert (forall ((s $S)) (! (=> (= ($S.len s) 0) (= s $S.empty)) :pattern (($S.len s)))))
 (assert (forall ((s $S) (x $E)) (! (= ($S.len ($S.snoc s x)) (+ ($S.len s) 1)) :pattern (($S.snoc s x)))))
-(assert (forall ((s $S) (x $E) (i Int)) (! (= ($S.nth ($S.snoc s x) i) (ite (= i ($S.len s)) x ($S.nth s i))) :pattern (($S.nth ($S.snoc s x) i)))))
+(assert (forall ((s $S) (x $E) (i Int)) (! (= ($S.nth ($S.snoc s x) i) (ite (= i ($S.len s)) $X ($S.nth s i))) :pattern (($S.nth ($S.snoc s x) i)))))
 (assert (forall ((s $S) (a Int) (b Int)) (! (=> (and (<= 0 a) (<= a b) (<= b ($S.len s))) (= ($S.len ($S.slice s a b)) (- b a))) :pattern (($S.slice s a b)))))
 (assert (forall ((s $S) (a Int) (b Int) (i Int)) (! (=> (and (<= 0 a) (<= a b) (<= b ($S.len s)) (<= 0 i) (< i (- b a))) (= ($S.nth ($S.slice s a b) i) ($S.nth s (+ a i)))) :pattern (($S.nth ($S.slice s a b) i)))))
 (assert (forall ((s $S)) (! (= ($S.slice s 0 ($S.len s)) s) :pattern (($S.slice s 0 ($S.len s))))))
 (assert (forall ((s $S) (x $E)) (! (= ($S.slice ($S.snoc s x) 0 ($S.len s)) s) :pattern (($S.slice ($S.snoc s x) 0 ($S.len s))))))
 (assert (forall ((s $S) (a Int) (b Int) (c Int) (d Int)) (! (=> (and (<= 0 a) (<= a b) (<= b ($S.len s)) (<= 0 c) (<= c d) (<= d (- b a))) (= ($S.slice ($S.slice s a b) c d) ($S.slice s (+ a c) (+ a d)))) :pattern (($S.slice ($S.slice s a b) c d)))))
 (assert (forall ((s $S) (i Int) (x $E)) (! (= ($S.len ($S.upd s i x)) ($S.len s)) :pattern (($S.upd s i x)))))
-(assert (forall ((s $S) (i Int) (x $E) (j Int)) (! (= ($S.nth ($S.upd s i x) j) (ite (= i j) x ($S.nth s j))) :pattern (($S.nth ($S.upd s i x) j)))))
-`)
+(assert (forall ((s $S) (i Int) (x $E) (j Int)) (! (=> (and (<= 0 i) (< i ($S.len s))) (= ($S.nth ($S.upd s i x) j) (ite (= i j) $X ($S.nth s j)))) :pattern (($S.nth ($S.upd s i x) j)))))
+`) + extra
 }
 
-const strExtra = `(declare-fun Str.cat (Str Str) Str)
-(assert (forall ((a Str) (b Str)) (! (= (Str.len (Str.cat a b)) (+ (Str.len a) (Str.len b))) :pattern ((Str.cat a b)))))
-(assert (forall ((a Str) (b Str) (i Int)) (! (= (Str.nth (Str.cat a b) i) (ite (< i (Str.len a)) (Str.nth a i) (Str.nth b (- i (Str.len a))))) :pattern ((Str.nth (Str.cat a b) i)))))
-(assert (forall ((a Str)) (! (= (Str.cat a Str.empty) a) :pattern ((Str.cat a Str.empty)))))
+const strExtra = `(assert (forall ((a Str)) (! (= (Str.cat a Str.empty) a) :pattern ((Str.cat a Str.empty)))))
 (assert (forall ((a Str)) (! (= (Str.cat Str.empty a) a) :pattern ((Str.cat Str.empty a)))))
-(assert (forall ((s Str) (i Int)) (! (and (<= 0 (Str.nth s i)) (<= (Str.nth s i) 255)) :pattern ((Str.nth s i)))))
 `
 
 func (U *Universe) litDecls() string {
